@@ -493,7 +493,11 @@ def report(pid, pc, tier, seed, results, extra_results, wall):
             violations.append({"clause": cid, "fn": my_clauses[cid]["fn"], "text": my_clauses[cid]["text"],
                                "diag": {"msg": "syntactic obligation failed: the body is not a single diverging macro call",
                                         "rendered": "", "src": []}})
+    seen_body = set()
     for fn, f, g in body_fail:
+        if fn in seen_body:
+            continue
+        seen_body.add(fn)
         violations.append({"clause": "%s.body(%s)" % (pid, fn.split("::")[-1].strip()), "fn": fn,
                            "text": "implicit obligation (call precondition / assertion / overflow / bounds) in the body",
                            "diag": f})
